@@ -53,6 +53,8 @@ def lane(i):
                 keys = [l.split(": [")[0].split(": ", 1)[-1] for l in rr.stdout.splitlines() if ": [" in l and not l.startswith("KNOWN-FINDING")]
                 if rr.returncode == 1:
                     hits[p] = keys
+                    if os.environ.get("MATRIX_LINES"):
+                        hits[p] = [l for l in rr.stdout.splitlines() if ": [" in l and not l.startswith("KNOWN-FINDING")]
                 elif rr.returncode != 0:
                     hits[p] = ["CHECK-ERROR rc=%d: %s" % (rr.returncode, rr.stdout[-200:])]
             with lock:
